@@ -15,7 +15,9 @@ Proof. induction l as [|t r IH]; intros tl; simpl; [reflexivity|]. rewrite IH. a
 Lemma exec_op_now cfg tl o : now (fst (exec_op cfg tl o)) = now tl.
 Proof.
   destruct o as [|s q d count rwd name replace|t s q d count|t| |t|t|t x|q d]; simpl; try reflexivity.
-  - destruct (match name with Some nm => if replace then find_named nm (tracks tl) else None | None => None end) as [tr|].
+  - destruct (match name with
+              | Some nm => if replace then match find_named nm (tracks tl) with Some tr => Some (nm, tr) | None => None end else None
+              | None => None end) as [[nm tr]|].
     + pose proof (track_update_now cfg tl tr s q d count) as H.
       destruct (track_update cfg tl tr s q d count) as [tl1 tr1]. simpl in *. exact H.
     + destruct (negb (max_tracks cfg =? 0) && (max_tracks cfg <=? Z.of_nat (length (tracks tl)))); [reflexivity|].
